@@ -142,8 +142,64 @@ def compare(op, a, b):
 # ------------------------------------------------------------------------------------
 # uninterpreted functions with instantiated axioms
 
-def _key(args):
-    return tuple(z3.simplify(x).sexpr() for x in args)
+def _to_sympy(t, syms):
+    """z3 real/int term -> sympy expression (rational functions over atoms)"""
+    import sympy
+    if z3.is_int_value(t):
+        return sympy.Integer(t.as_long())
+    if z3.is_rational_value(t):
+        return sympy.Rational(t.numerator_as_long(), t.denominator_as_long())
+    k = t.decl().kind()
+    ch = t.children()
+    if k == z3.Z3_OP_ADD:
+        return sympy.Add(*[_to_sympy(c, syms) for c in ch])
+    if k == z3.Z3_OP_MUL:
+        return sympy.Mul(*[_to_sympy(c, syms) for c in ch])
+    if k == z3.Z3_OP_SUB:
+        r = _to_sympy(ch[0], syms)
+        for c in ch[1:]:
+            r = r - _to_sympy(c, syms)
+        return r
+    if k == z3.Z3_OP_UMINUS:
+        return -_to_sympy(ch[0], syms)
+    if k == z3.Z3_OP_DIV:
+        return _to_sympy(ch[0], syms) / _to_sympy(ch[1], syms)
+    if k == z3.Z3_OP_TO_REAL:
+        return _to_sympy(ch[0], syms)
+    key = t.sexpr()
+    if key not in syms:
+        syms[key] = sympy.Symbol(f'a{len(syms)}')
+    return syms[key]
+
+
+def canon(ctx, t):
+    """normal form of an arithmetic term as a rational function of its non-arithmetic atoms
+    (polynomial normal form, back end N of DESIGN.md 3.6)"""
+    if not hasattr(ctx, 'sym_atoms'):
+        ctx.sym_atoms = {}
+        ctx.canon_cache = {}
+    i = t.get_id()
+    if i not in ctx.canon_cache:
+        import sympy
+        try:
+            e = _to_sympy(t, ctx.sym_atoms)
+            e = sympy.cancel(sympy.together(e))
+        except Exception:  # noqa
+            e = None
+        ctx.canon_cache[i] = (e, t)
+    return ctx.canon_cache[i][0]
+
+
+def same_real(ctx, e1, t1, e2, t2):
+    if t1.eq(t2):
+        return True
+    if e1 is None or e2 is None:
+        return False
+    import sympy
+    try:
+        return sympy.cancel(e1 - e2) == 0
+    except Exception:  # noqa
+        return False
 
 
 def uf_apply(ctx, name, *args):
@@ -151,11 +207,16 @@ def uf_apply(ctx, name, *args):
     if ctx.concrete_math and all(_c(a) for a in args):
         return _native(name, args)
     zs = [zreal(a) for a in args]
-    key = (name,) + _key(zs)
-    if key in ctx.apps:
-        return SNum(ctx.apps[key])
+    cs = [canon(ctx, z) for z in zs]
+    if not hasattr(ctx, 'app_list'):
+        ctx.app_list = {}
+    for (zs2, cs2, r2) in ctx.app_list.get(name, []):
+        if all(same_real(ctx, c1, z1, c2, z2) for c1, z1, c2, z2 in zip(cs, zs, cs2, zs2)):
+            return SNum(r2)
     f = ctx.uf(name, *([R] * (len(zs) + 1)))
     r = f(*zs)
+    ctx.app_list.setdefault(name, []).append((zs, cs, r))
+    key = (name, len(ctx.apps))
     ctx.apps[key] = r
     ctx.trusted['math.' + name] += 1
     _axioms(ctx, name, zs, r)
